@@ -24,7 +24,7 @@ pub fn def() -> CheckDef {
         run,
         rule: "seeded histories (<= 25 ops: structure, whole-stream writes, handle scripts, metadata; the first cases of a run grow a V3 file past 109 FAT sectors in ~1 MB steps; every eighth history starts from a file laid out by the independent writer); a process crash is injected at EVERY boundary between two API calls (snapshot of the image without flush), the snapshot is opened in permissive and strict mode and dumped, and compared with the model (streams with unflushed handle data: everything but their content). At one drawn boundary per history the run forks: the rest of the history is executed on the live object and on the reopened snapshot, both against the model. Non-trivial: >= 1 successful mutation and >= 1 crash-point check; distinct = distinct (seam log, final image) hash.",
         assumptions: &["crash = process crash / into_inner: bytes that reached write() survive (no power-loss model: the property does not state one)", "reference model as in C01"],
-        cpu_limit_s: 30,
+        cpu_limit_s: 300,
         fault_kinds: "F-CR at every operation boundary (enumerated per history); fork + continue",
         count_subruns: false,
         expect_probes: &["fork_runs"],
